@@ -92,21 +92,44 @@ def parse_under_error_filter(text, user_models=(), include_cc=True):
     p = DecFileParser.from_string(text)
     if user_models:
         p.load_additional_decay_models(*user_models)
+    REFUSED.clear()
     with warnings.catch_warnings():
         warnings.simplefilter("error")
         try:
             p.parse(include_cc) if include_cc is not True else p.parse()
         except Warning:
+            REFUSED.append(p)
             return None
         except Exception as e:  # noqa: BLE001
             # lark wraps exceptions raised inside its visitors / transformers
             c = e
             while c is not None:
                 if isinstance(c, Warning) or isinstance(getattr(c, "orig_exc", None), Warning):
+                    REFUSED.append(p)
                     return None
                 c = c.__cause__ or c.__context__
             raise
     return p
+
+
+REFUSED: list = []      # the object whose parse() was just refused (a warning surfaced as an exception), for `answers_after_a_refused_parse`
+
+
+def answers_after_a_refused_parse(p, exp):
+    """A parse() that ended with an exception has not parsed the file.  If the object answers questions about decay tables all the same (instead of
+    saying that it is not parsed), the answers are still the file's: judged only when given.  -> list of (mechanism, message)"""
+    try:
+        with warnings.catch_warnings():
+            warnings.simplefilter("ignore")
+            p.list_decay_mother_names()
+    except Exception:  # noqa: BLE001   the object says it has nothing to answer with: fine
+        return None
+    try:
+        with warnings.catch_warnings():
+            warnings.simplefilter("ignore")
+            return compare_tables(p, exp)
+    except Exception as e:  # noqa: BLE001
+        return [("tables:query-raised", f"{type(e).__name__}: {e}")]
 
 
 def parse_after_an_interrupted_parse(ctx, text, user_models=(), include_cc=True):
@@ -305,9 +328,130 @@ def edit_returned_values(p, mothers=(), expand=False):
     return n
 
 
+class _RaisingNames(list):
+    """The caller's own collection of names, which fails after a few uses (a lazily loaded list, a broken proxy)."""
+
+    def __init__(self, names_, uses):
+        super().__init__(names_)
+        self.left = uses
+
+    def _use(self):
+        self.left -= 1
+        if self.left < 0:
+            raise OSError("harness: the caller's collection failed while it was read")
+
+    def __contains__(self, x):
+        self._use()
+        return super().__contains__(x)
+
+    def __iter__(self):
+        self._use()
+        return super().__iter__()
+
+
+class _FailingStream(io.StringIO):
+    def __init__(self, ok_writes):
+        super().__init__()
+        self.left = ok_writes
+
+    def write(self, s):
+        if self.left <= 0:
+            raise OSError("harness: the caller's output stream failed")
+        self.left -= 1
+        return super().write(s)
+
+
+import random as _random  # noqa: E402
+
+UPSET_RATE = 0.15
+UPSET_COUNT = [0]
+_upset_rng = _random.Random("snapshot-upset")
+
+
+def upset(p, rng=None):
+    """Things that go wrong around a parsed object without being the library's fault -- questions it rightly refuses (unknown particle, contradictory
+    print options), a caller's stream or collection that fails half-way, a call abandoned at a random line (Ctrl-C) -- each followed by an ordinary
+    successful question.  None of it may change any later answer.  Exceptions are swallowed: what is refused is not judged here."""
+    from . import trace  # noqa: PLC0415
+
+    rng = rng or _upset_rng
+    UPSET_COUNT[0] += 1
+    try:
+        with warnings.catch_warnings():
+            warnings.simplefilter("ignore")
+            ms = list(p.list_decay_mother_names())
+    except Exception:  # noqa: BLE001
+        return
+    # chain questions only for mothers whose (acyclic) unfolding is small: generated tables may nest deeply or refer to each other
+    from . import chains as CH  # noqa: PLC0415
+    from . import contracts as CT  # noqa: PLC0415
+
+    try:
+        with warnings.catch_warnings():
+            warnings.simplefilter("ignore")
+            T = {m: [{"fs": list(fs)} for fs in p.list_decay_modes(m)] for m in ms}
+    except Exception:  # noqa: BLE001
+        return
+    memo = {}
+    small = [m for m in ms if CT._reach_acyclic(T, m) and CH.ref_sizes(T, m, memo)[0] <= 200]
+    m0 = small[: 3]
+    acts = ["print-to-failing-stream", "print-unknown", "chains-unknown-with-stable-set", "chains-with-failing-collection", "expand-unknown", "modes-unknown",
+            "print-contradictory", "abandoned-chains", "abandoned-print"]
+    for act in rng.sample(acts, rng.randint(2, 4)):
+        m = rng.choice(ms) if ms else "NoSuchParticle"
+        if act in ("chains-with-failing-collection", "abandoned-chains"):
+            if not small:
+                continue
+            m = rng.choice(small)
+        try:
+            with warnings.catch_warnings():
+                warnings.simplefilter("ignore")
+                if act == "print-to-failing-stream":
+                    with contextlib.redirect_stdout(_FailingStream(rng.randint(0, 3))):
+                        p.print_decay_modes(m, **rng.choice([{}, {"normalize": True}, {"scale": 0.5}, {"display_photos_keyword": False}]))
+                elif act == "print-unknown":
+                    with contextlib.redirect_stdout(io.StringIO()):
+                        p.print_decay_modes("NoSuchParticle")
+                elif act == "chains-unknown-with-stable-set":
+                    p.build_decay_chains("NoSuchParticle", stable_particles=rng.sample(ms, min(len(ms), 3)))
+                elif act == "chains-with-failing-collection":
+                    p.build_decay_chains(m, stable_particles=_RaisingNames(rng.sample(ms, min(len(ms), 2)), rng.randint(0, 4)))
+                elif act == "expand-unknown":
+                    p.expand_decay_modes("NoSuchParticle")
+                elif act == "modes-unknown":
+                    p.list_decay_modes("NoSuchParticle")
+                    p.list_decay_modes("NoSuchPDGName", pdg_name=True)
+                elif act == "print-contradictory":
+                    with contextlib.redirect_stdout(io.StringIO()):
+                        p.print_decay_modes(m, normalize=True, scale=0.5)
+                else:
+                    fp = trace.Failpoint.get()
+
+                    def q(m=m, act=act):
+                        if act == "abandoned-chains":
+                            return p.build_decay_chains(m, stable_particles=ms[:2])
+                        with contextlib.redirect_stdout(io.StringIO()):
+                            return p.print_decay_modes(m, normalize=True)
+
+                    _, n = fp.count(q)
+                    fp.inject(rng.randint(1, max(1, n)), q)
+        except Exception:  # noqa: BLE001, S110
+            pass
+    # ... and ordinary questions right afterwards (a plain chain for the first mothers), as a user carries on
+    for m in m0:
+        try:
+            with warnings.catch_warnings():
+                warnings.simplefilter("ignore")
+                p.build_decay_chains(m)
+        except Exception:  # noqa: BLE001, S110   (cyclic tables etc.: not this monitor's business)
+            pass
+
+
 def compare_tables(p, exp, check_derived=True):
     """Observed decay tables vs reference semantics -> list of (mechanism, message)."""
     out = []
+    if _upset_rng.random() < UPSET_RATE:
+        upset(p)
     mothers = list(p.list_decay_mother_names())
     n = p.number_of_decays
     nblock = len(exp["order"])
